@@ -233,15 +233,17 @@ func ZZC12Lex() {
 		if want == zzRefDontCare || want == zzRefHang {
 			vn.Assume(false)
 		}
-		if want == zzRefIllegal {
-			// F8: the illegal-token code equals the end-of-input code
-			vn.Known("F8", true)
-		}
 		got := l.Lex(val)
+		if want == zzRefIllegal {
+			// F8: the illegal-token code equals the end-of-input code. The region is exactly that:
+			// the lexer answered 0 for an illegal rune (anything else it does with one — skipping
+			// it, reading it as a legal token — is a new violation)
+			vn.Known("F8", got == 0)
+		}
 		switch {
 		case want == zzRefIllegal:
-			vn.Assert("C12.illegal-rune-not-eof", got > 0)
 			vn.Assert("C12.illegal-rune-not-a-token", got < LABEL || got > EXEC)
+			vn.Assert("C12.illegal-rune-not-eof", got > 0)
 		case want == zzRefEOF:
 			vn.Assert("C12.eof-at-end", got <= 0)
 		default:
